@@ -705,3 +705,57 @@ func BoundObjectUnboundHereOp(s *Schema, tag string) (*Def, string) {
 	}
 	return nil, ""
 }
+
+// TripleTypenameOp: the same `typename` three times -- twice on one field with one selection (a
+// legitimate reuse), then on a field of ANOTHER type (must be rejected however often the name
+// was reused successfully before).
+func TripleTypenameOp(s *Schema, tag string) *Def { return tripleTypenameOp(s, tag, false) }
+
+// TripleTypenameAbstractOp: the same over two different ABSTRACT types (selection: one inline
+// fragment per possible type is not needed -- `__typename` alone is a selection).
+func TripleTypenameAbstractOp(s *Schema, tag string) *Def { return tripleTypenameOp(s, tag, true) }
+
+func tripleTypenameOp(s *Schema, tag string, abstract bool) *Def {
+	type cand struct {
+		f    *FieldDef
+		leaf string
+	}
+	var cs []cand
+	for _, f := range s.FieldsOf("Query") {
+		td := s.Get(f.Type.Base())
+		if td == nil || (!abstract && td.Kind != "OBJECT") || (abstract && td.Kind != "INTERFACE" && td.Kind != "UNION") {
+			continue
+		}
+		req := false
+		for _, a := range f.Args {
+			if a.Type.NonNull && a.Default == "" {
+				req = true
+			}
+		}
+		if req {
+			continue
+		}
+		if abstract {
+			cs = append(cs, cand{f, "__typename"})
+			continue
+		}
+		for _, lf := range td.Fields {
+			if s.IsLeaf(lf.Type.Base()) && len(lf.Args) == 0 {
+				cs = append(cs, cand{f, lf.Name})
+				break
+			}
+		}
+	}
+	for i := range cs {
+		for j := range cs {
+			if cs[i].f.Type.Base() != cs[j].f.Type.Base() {
+				op := "Hz" + tag + "Q"
+				tn := "Hz" + tag + "Who"
+				return &Def{Kind: "query", Name: op, Text: fmt.Sprintf(
+					"query %s {\n  # @genqlient(typename: %q)\n  a1: %s {\n    %s\n  }\n  # @genqlient(typename: %q)\n  a2: %s {\n    %s\n  }\n  # @genqlient(typename: %q)\n  a3: %s {\n    %s\n  }\n}\n",
+					op, tn, cs[i].f.Name, cs[i].leaf, tn, cs[i].f.Name, cs[i].leaf, tn, cs[j].f.Name, cs[j].leaf)}
+			}
+		}
+	}
+	return nil
+}
